@@ -90,6 +90,7 @@ type c14Live struct {
 	mprocs  interface{} // procs per machine, from the last MgrStart
 	auto    bool        // requests come from a real session: number them as they are offered
 	own     int         // goroutine of the manager under observation
+	multi   bool        // record every manager loop (the repository's own tests): events are split by goroutine later
 	nextRid int
 }
 
@@ -119,7 +120,7 @@ func (l *c14Live) hook(ev string, args ...interface{}) {
 	gid := c14Gid()
 	l.mu.Lock()
 	defer l.mu.Unlock()
-	if ev == "MgrOffer" && l.own == 0 {
+	if ev == "MgrOffer" && l.own == 0 && !l.multi {
 		// the manager under observation is the one that receives the first offer: managers of earlier
 		// sessions that are still winding down (their minute ticker also passes through MgrSelect) get none
 		l.own = gid
@@ -545,6 +546,60 @@ func c14RunLive(c *c14Case) (rec vtr.Rec) {
 	rec["ended"] = false
 	rec["mayfail"] = false
 	return
+}
+
+// TestVerifC14Dormant runs the repository's own machine-manager and bigmachine-executor tests under the recorder:
+// every manager loop (one goroutine each) becomes one recorded session.
+func TestVerifC14Dormant(t *testing.T) {
+	if os.Getenv("VERIF_DORMANT") == "" {
+		t.Skip("not asked for")
+	}
+	l := &c14Live{machIdx: map[*sliceMachine]int{}, reqIdx: map[*scheduleRequest]int{}, changed: make(chan struct{}, 1), auto: true, multi: true}
+	verifHook = l.hook
+	tests := []struct {
+		name string
+		f    func(*testing.T)
+	}{
+		{"TestSlicemachineLoad", TestSlicemachineLoad}, {"TestSlicemachineExclusive", TestSlicemachineExclusive},
+		{"TestSlicemachineProbation", TestSlicemachineProbation}, {"TestSlicemachineProbationTimeout", TestSlicemachineProbationTimeout},
+		{"TestSlicemachineLost", TestSlicemachineLost}, {"TestSlicemachinePriority", TestSlicemachinePriority},
+		{"TestSlicemachineNonblockingExclusive", TestSlicemachineNonblockingExclusive},
+		{"TestBigmachineExecutor", TestBigmachineExecutor}, {"TestBigmachineExecutorExclusive", TestBigmachineExecutorExclusive},
+		{"TestBigmachineExecutorTaskExclusive", TestBigmachineExecutorTaskExclusive}, {"TestBigmachineExecutorProcs", TestBigmachineExecutorProcs},
+		{"TestBigmachineExecutorLost", TestBigmachineExecutorLost}, {"TestBigmachineExecutorErrorRun", TestBigmachineExecutorErrorRun},
+		{"TestBigmachineExecutorFatalErrorRun", TestBigmachineExecutorFatalErrorRun},
+	}
+	failed := []string{}
+	for _, tc := range tests {
+		if os.Getenv("VERIF_DORMANT") == "quick" && tc.name == "TestSlicemachineLoad" {
+			continue // (thousands of offers on clusters of 90-150 procs per machine: thorough tier)
+		}
+		if !t.Run(tc.name, tc.f) {
+			failed = append(failed, tc.name)
+		}
+	}
+	time.Sleep(300 * time.Millisecond)
+	verifHook = nil
+	l.mu.Lock()
+	by := map[int][]vtr.Rec{}
+	order := []int{}
+	for _, r := range l.w {
+		g, ok := r["gid"].(int)
+		if !ok {
+			continue
+		}
+		if _, seen := by[g]; !seen {
+			order = append(order, g)
+		}
+		by[g] = append(by[g], r)
+	}
+	l.mu.Unlock()
+	w := vtr.Create("c14_dormant.ndjson")
+	defer w.Close()
+	for i, g := range order {
+		w.Put(vtr.Rec{"id": 9000 + i, "mode": "live", "machprocs": 0, "maxp": 0, "maxload": 0, "events": by[g], "stalled": true,
+			"ended": false, "mayfail": true, "runerr": "", "repo_tests_failed": failed})
+	}
 }
 
 func TestVerifC14(t *testing.T) {
